@@ -68,6 +68,7 @@ type FuncContract struct {
 	Loops      map[int]*LoopContract
 	Params     map[string]*ParamContract
 	AllocBound *Clause
+	RecDecreases *Clause // variant of direct recursion: 0 <= E(args) < E(params) at every self call
 	Locks      []string
 	File       string
 	Line       int
@@ -123,7 +124,7 @@ func newContracts() *Contracts {
 	return &Contracts{Funcs: map[string]*FuncContract{}, Specs: map[string]*SpecFunc{}, Decls: map[string][]string{}}
 }
 
-var keywordRe = regexp.MustCompile(`^(func|requires|ensures_on_panic|ensures|summary|assertat|checkif|check|functional|closeonce|callpreif|callpre|dyncall|ghost|atunlock|sendpre|nomonitor|unknowncalls|literals|modifies|pure|trusted|strict|mathint|maypanic|nobody|loop|param|spec|axiom|lemma|monitor|allocbound|decl)\b`)
+var keywordRe = regexp.MustCompile(`^(func|requires|ensures_on_panic|ensures|summary|assertat|checkif|check|functional|closeonce|callpreif|callpre|dyncall|ghost|atunlock|sendpre|nomonitor|unknowncalls|literals|modifies|pure|trusted|strict|mathint|maypanic|nobody|loop|param|spec|axiom|lemma|monitor|allocbound|recdecreases|decl)\b`)
 
 // preprocess rewrites `A ==> B` into implies(A, B) (lowest precedence within its paren group)
 // and `A <==> B` into iff(A, B).
@@ -466,6 +467,10 @@ func (cs *Contracts) parseContractFile(path string, content []byte, pkgName stri
 		case "allocbound":
 			if cur != nil {
 				cur.AllocBound = mk(rest, it.line)
+			}
+		case "recdecreases":
+			if cur != nil {
+				cur.RecDecreases = mk(rest, it.line)
 			}
 		case "loop":
 			if cur == nil {
